@@ -1,4 +1,5 @@
 import RlibModel.Lemmas.Geometry
+import RlibModel.Lemmas.GeometrySpec
 /-!
 # C10 — intersections return points on both objects and the right kind of contact
 
@@ -306,6 +307,334 @@ theorem cc_radical_identity (a b : Circle ℝ) (hc : a.c ≠ b.c) (t : ℝ) :
     rw [← hhdef]; field_simp
   linear_combination (2 * d * h - d ^ 2) * hu + hh
 
+/-! ### the executable exact specification agrees with the model in exact arithmetic
+
+`S` in the driver's output is computed by `specKind*` / `specPosition` / `specContains` over exact fractions.
+These theorems say that whenever that code commits to an answer, the real-number instance of the model gives the
+same answer; `nearCircle_iff` / `nearLine_iff` say that the point predicate of mode `P` is the stated distance bound. -/
+
+/-- whenever the executable exact spec commits to a circle–line kind, the real-number model returns that kind
+    (for every `0 < eps < 1e-8`, so in particular for `util::EPS = 1e-9`) -/
+theorem specKindCL_sound (eps : ℝ) (heps : 0 < eps) (hm : eps < 1 / 10 ^ 8) (qc : QCircle) (ql : QLine)
+    (hc : qc.WF) (hl : ql.WF) (hr : 0 ≤ qc.r.val) (k : String) (h : specKindCL qc ql = some k) :
+    (intersectCL (realGeo eps) qc.val (ql.val eps)).kind = k := by
+  obtain ⟨hcc, hcr⟩ := hc
+  have wfE := QLine.wf_eval hl hcc
+  have wfN := QLine.wf_n2 hl
+  have vE := QLine.val_eval hl hcc
+  have vN := QLine.val_n2 hl
+  have wfS := Q.wf_sq wfE
+  have vS := Q.val_sq wfE
+  simp only [specKindCL] at h
+  by_cases hz : ql.n2.isZero = true
+  · rw [if_pos hz] at h; cases h
+  rw [if_neg hz] at h
+  have hn0 : ql.n2.val ≠ 0 := fun e => hz ((Q.isZero_iff wfN).mpr e)
+  have hnpos : 0 < ql.A.val ^ 2 + ql.B.val ^ 2 := by
+    rw [← vN]; exact lt_of_le_of_ne (by rw [vN]; positivity) (Ne.symm hn0)
+  have hAB : ql.A.val ≠ 0 ∨ ql.B.val ≠ 0 := by
+    by_contra hn
+    rw [not_or, not_not, not_not] at hn
+    rw [hn.1, hn.2] at hnpos; norm_num at hnpos
+  have hu : UnitLine (ql.val eps) := (line_new_unit eps _ _ _ hAB).1
+  have hsd : |sdist (ql.val eps) qc.val.c| = |(ql.eval qc.c).val| / Real.sqrt (ql.A.val ^ 2 + ql.B.val ^ 2) := by
+    unfold QLine.val
+    rw [sdist_lineNew, abs_div, abs_of_pos (Real.sqrt_pos.mpr hnpos), vE]
+    rfl
+  have hmv := margin_val
+  have hmw := margin_wf
+  by_cases c1 : (((qc.r + margin).sq * ql.n2).le (ql.eval qc.c).sq) = true
+  · rw [if_pos c1] at h
+    cases h
+    rw [Q.le_iff (Q.wf_mul (Q.wf_sq (Q.wf_add hcr hmw)) wfN) wfS,
+      Q.val_mul (Q.wf_sq (Q.wf_add hcr hmw)) wfN, Q.val_sq (Q.wf_add hcr hmw), Q.val_add hcr hmw, vS, vN, hmv] at c1
+    have := (le_abs_div_sqrt hnpos (by linarith : (0:ℝ) ≤ qc.r.val + 1 / 10 ^ 8)).mpr c1
+    rw [(cl_kind_none eps qc.val (ql.val eps) hu heps.le hr (by rw [hsd]; show qc.r.val + eps < _; linarith)).1]
+    rfl
+  rw [if_neg c1] at h
+  by_cases c2 : (margin.le qc.r && (ql.eval qc.c).sq.le ((qc.r - margin).sq * ql.n2)) = true
+  · rw [if_pos c2] at h
+    cases h
+    rw [Bool.and_eq_true, Q.le_iff hmw hcr, Q.le_iff wfS (Q.wf_mul (Q.wf_sq (Q.wf_sub hcr hmw)) wfN),
+      Q.val_mul (Q.wf_sq (Q.wf_sub hcr hmw)) wfN, Q.val_sq (Q.wf_sub hcr hmw), Q.val_sub hcr hmw, vS, vN, hmv] at c2
+    have := (abs_div_sqrt_le hnpos (by linarith : (0:ℝ) ≤ qc.r.val - 1 / 10 ^ 8)).mpr c2.2
+    obtain ⟨p, q, e, _⟩ := cl_kind_intersect eps qc.val (ql.val eps) hu heps
+      (by rw [hsd]; show _ < qc.r.val - eps; linarith)
+    rw [e]; rfl
+  rw [if_neg c2] at h
+  by_cases c3 : ((ql.eval qc.c).sq.eq (qc.r.sq * ql.n2)) = true
+  · rw [if_pos c3] at h
+    cases h
+    rw [Q.eq_iff wfS (Q.wf_mul (Q.wf_sq hcr) wfN), Q.val_mul (Q.wf_sq hcr) wfN, Q.val_sq hcr, vS, vN] at c3
+    have h1 := (le_abs_div_sqrt hnpos hr).mpr c3.ge
+    have h2 := (abs_div_sqrt_le hnpos hr).mpr c3.le
+    obtain ⟨p, e⟩ := cl_kind_touch eps qc.val (ql.val eps) hu
+      (by rw [hsd]; show qc.r.val - eps < _; linarith) (by rw [hsd]; show _ ≤ qc.r.val + eps; linarith)
+    rw [e]; rfl
+  · rw [if_neg c3] at h; cases h
+/-- the same for circle–circle kinds (radii at least `eps`, centres identical or at least `eps` apart) -/
+theorem specKindCC_sound (eps : ℝ) (heps : 0 < eps) (hm : eps < 1 / 10 ^ 8) (qa qb : QCircle)
+    (ha : qa.WF) (hb : qb.WF) (hra : eps ≤ qa.r.val) (hrb : eps ≤ qb.r.val)
+    (hsep : (qDist2 qa.c qb.c).val = 0 ∨ eps ≤ Geometry.edist qa.val.c qb.val.c)
+    (k : String) (h : specKindCC qa qb = some k) :
+    (intersectCC (realGeo eps) qa.val qb.val).kind = k := by
+  obtain ⟨hac, har⟩ := ha
+  obtain ⟨hbc, hbr⟩ := hb
+  obtain ⟨vD, wD⟩ := qDist2_val hac hbc
+  have hmv := margin_val
+  have hmw := margin_wf
+  have hd2 : Geometry.edist qa.val.c qb.val.c ^ 2 = (qDist2 qa.c qb.c).val := by rw [edist_sq, vD]; rfl
+  have hd0 := edist_nonneg qa.val.c qb.val.c
+  -- the larger and the smaller radius, as the spec computes them
+  obtain ⟨R, s, hR, hs, wR, ws, hsum, hdiff, heq⟩ : ∃ R s : Q,
+      R = (if qa.r.lt qb.r = true then qb.r else qa.r) ∧ s = (if qa.r.lt qb.r = true then qa.r else qb.r) ∧
+      R.WF ∧ s.WF ∧ R.val + s.val = qa.r.val + qb.r.val ∧ R.val - s.val = |qa.r.val - qb.r.val| ∧
+      (R.val = s.val → qa.r.val = qb.r.val) := by
+    by_cases c : qa.r.lt qb.r = true
+    · have c' := (Q.lt_iff har hbr).mp c
+      refine ⟨qb.r, qa.r, by rw [if_pos c], by rw [if_pos c], hbr, har, by ring, ?_, fun e => e.symm⟩
+      rw [abs_of_neg (by linarith)]; ring
+    · have c' : ¬ qa.r.val < qb.r.val := fun e => c ((Q.lt_iff har hbr).mpr e)
+      refine ⟨qa.r, qb.r, by rw [if_neg c], by rw [if_neg c], har, hbr, rfl, ?_, id⟩
+      rw [abs_of_nonneg (by linarith)]
+  simp only [specKindCC] at h
+  rw [← hR, ← hs] at h
+  set d := Geometry.edist qa.val.c qb.val.c with hddef
+  have hs0 : 0 ≤ s.val := by
+    have : s.val = qa.r.val ∨ s.val = qb.r.val := by
+      rw [hs]; split_ifs <;> simp
+    rcases this with e | e <;> rw [e] <;> linarith
+  have hRs : s.val ≤ R.val := by have := abs_nonneg (qa.r.val - qb.r.val); linarith
+  by_cases c1 : ((qDist2 qa.c qb.c).isZero && R.eq s) = true
+  · rw [if_pos c1] at h; cases h
+    rw [Bool.and_eq_true, Q.isZero_iff wD, Q.eq_iff wR ws] at c1
+    have hx : qa.c.x.val - qb.c.x.val = 0 := by nlinarith [sq_nonneg (qa.c.x.val - qb.c.x.val), sq_nonneg (qa.c.y.val - qb.c.y.val), vD, c1.1]
+    have hy : qa.c.y.val - qb.c.y.val = 0 := by nlinarith [sq_nonneg (qa.c.x.val - qb.c.x.val), sq_nonneg (qa.c.y.val - qb.c.y.val), vD, c1.1]
+    have hcc : qa.val.c = qb.val.c := by
+      show (⟨qa.c.x.val, qa.c.y.val⟩ : Point ℝ) = ⟨qb.c.x.val, qb.c.y.val⟩
+      rw [Point.mk.injEq]; constructor <;> linarith
+    rw [cc_kind_same eps qa.val qb.val heps hcc (heq c1.2)]; rfl
+  rw [if_neg c1] at h
+  by_cases c2 : ((R + s + margin).sq.le (qDist2 qa.c qb.c)) = true
+  · rw [if_pos c2] at h; cases h
+    rw [Q.le_iff (Q.wf_sq (Q.wf_add (Q.wf_add wR ws) hmw)) wD, Q.val_sq (Q.wf_add (Q.wf_add wR ws) hmw),
+      Q.val_add (Q.wf_add wR ws) hmw, Q.val_add wR ws, hmv, ← hd2] at c2
+    have := (sq_le_sq_iff (by linarith) hd0).mp c2
+    rw [(cc_kind_none_outside eps qa.val qb.val heps.le (by show 0 ≤ qa.r.val; linarith) (by show 0 ≤ qb.r.val; linarith)
+      (by show qa.r.val + qb.r.val + eps < d; linarith)).1]
+    rfl
+  rw [if_neg c2] at h
+  by_cases c3 : (margin.le (R - s) && (qDist2 qa.c qb.c).le (R - s - margin).sq) = true
+  · rw [if_pos c3] at h; cases h
+    rw [Bool.and_eq_true, Q.le_iff hmw (Q.wf_sub wR ws), Q.le_iff wD (Q.wf_sq (Q.wf_sub (Q.wf_sub wR ws) hmw)),
+      Q.val_sq (Q.wf_sub (Q.wf_sub wR ws) hmw), Q.val_sub (Q.wf_sub wR ws) hmw, Q.val_sub wR ws, hmv, ← hd2] at c3
+    have := (sq_le_sq_iff hd0 (by linarith)).mp c3.2
+    rw [(cc_kind_none_inside eps qa.val qb.val heps.le (by show 0 ≤ qa.r.val; linarith) (by show 0 ≤ qb.r.val; linarith)
+      (by show d < |qa.r.val - qb.r.val| - eps; linarith)).1]
+    rfl
+  rw [if_neg c3] at h
+  by_cases c4 : ((qDist2 qa.c qb.c).eq (R + s).sq) = true
+  · rw [if_pos c4] at h; cases h
+    rw [Q.eq_iff wD (Q.wf_sq (Q.wf_add wR ws)), Q.val_sq (Q.wf_add wR ws), Q.val_add wR ws, ← hd2] at c4
+    have h1 := (sq_le_sq_iff hd0 (by linarith)).mp c4.le
+    have h2 := (sq_le_sq_iff (by linarith) hd0).mp c4.ge
+    obtain ⟨p, e⟩ := cc_kind_touch_outside eps qa.val qb.val hra hrb
+      (by show qa.r.val + qb.r.val - eps ≤ d; linarith) (by show d < qa.r.val + qb.r.val + eps; linarith)
+    rw [e]; rfl
+  rw [if_neg c4] at h
+  by_cases c5 : ((qDist2 qa.c qb.c).eq (R - s).sq && !(R.eq s)) = true
+  · rw [if_pos c5] at h; cases h
+    rw [Bool.and_eq_true, Bool.not_eq_true', Q.eq_iff wD (Q.wf_sq (Q.wf_sub wR ws)), Q.val_sq (Q.wf_sub wR ws),
+      Q.val_sub wR ws, ← hd2] at c5
+    have hne : R.val ≠ s.val := fun e => by
+      have := (Q.eq_iff wR ws).mpr e; rw [this] at c5; exact absurd c5.2 (by simp)
+    have h1 := (sq_le_sq_iff hd0 (by linarith)).mp c5.1.le
+    have h2 := (sq_le_sq_iff (by linarith) hd0).mp c5.1.ge
+    have hdpos : eps ≤ d := by
+      rcases hsep with e | e
+      · exfalso
+        have : d ^ 2 = 0 := by rw [hd2, e]
+        have hd' : d = 0 := by nlinarith
+        apply hne; linarith
+      · exact e
+    obtain ⟨p, e⟩ := cc_kind_touch_inside eps qa.val qb.val hdpos
+      (by show |qa.r.val - qb.r.val| - eps ≤ d; linarith) (by show d < |qa.r.val - qb.r.val| + eps; linarith)
+    rw [e]; rfl
+  rw [if_neg c5] at h
+  by_cases c6 : ((R - s + margin).sq.le (qDist2 qa.c qb.c) && margin.le (R + s) && (qDist2 qa.c qb.c).le (R + s - margin).sq) = true
+  · rw [if_pos c6] at h; cases h
+    rw [Bool.and_eq_true, Bool.and_eq_true, Q.le_iff (Q.wf_sq (Q.wf_add (Q.wf_sub wR ws) hmw)) wD,
+      Q.le_iff hmw (Q.wf_add wR ws), Q.le_iff wD (Q.wf_sq (Q.wf_sub (Q.wf_add wR ws) hmw)),
+      Q.val_sq (Q.wf_add (Q.wf_sub wR ws) hmw), Q.val_sq (Q.wf_sub (Q.wf_add wR ws) hmw),
+      Q.val_add (Q.wf_sub wR ws) hmw, Q.val_sub (Q.wf_add wR ws) hmw, Q.val_sub wR ws, Q.val_add wR ws, hmv, ← hd2] at c6
+    have h1 := (sq_le_sq_iff (by linarith) hd0).mp c6.1.1
+    have h2 := (sq_le_sq_iff hd0 (by linarith)).mp c6.2
+    obtain ⟨p, q, e, _⟩ := cc_kind_intersect eps qa.val qb.val heps (by show 0 ≤ qa.r.val; linarith) (by show 0 ≤ qb.r.val; linarith)
+      (by show |qa.r.val - qb.r.val| + eps ≤ d; linarith) (by show d < qa.r.val + qb.r.val - eps; linarith)
+    rw [e]; rfl
+  · rw [if_neg c6] at h; cases h
+/-- the same for `Circle::position` -/
+theorem specPosition_sound (eps : ℝ) (heps : 0 ≤ eps) (hm : eps < 1 / 10 ^ 8) (qc : QCircle) (qp : QPoint)
+    (hc : qc.WF) (hp : qp.WF) (hr : 0 < qc.r.val) (k : String) (h : specPosition qc qp = some k) :
+    (position (realGeo eps) qc.val qp.val).toString = k := by
+  obtain ⟨hcc, hcr⟩ := hc
+  obtain ⟨vD, wD⟩ := qDist2_val hp hcc
+  have hmv := margin_val
+  have hmw := margin_wf
+  have hd2 : Geometry.edist qp.val qc.val.c ^ 2 = (qDist2 qp qc.c).val := by rw [edist_sq, vD]; rfl
+  have hd0 := edist_nonneg qp.val qc.val.c
+  have spec := position_spec eps heps qc.val hr qp.val
+  set d := Geometry.edist qp.val qc.val.c with hddef
+  have hrv : qc.val.r = qc.r.val := rfl
+  have hmr : eps * qc.r.val ≤ 1 / 10 ^ 8 * qc.r.val := by nlinarith
+  simp only [specPosition] at h
+  by_cases c1 : ((qDist2 qp qc.c).eq qc.r.sq) = true
+  · rw [if_pos c1] at h; cases h
+    rw [Q.eq_iff wD (Q.wf_sq hcr), Q.val_sq hcr, ← hd2] at c1
+    have h1 := (sq_le_sq_iff hd0 hr.le).mp c1.le
+    have h2 := (sq_le_sq_iff hr.le hd0).mp c1.ge
+    rw [spec.2.2.mpr (by rw [hrv, abs_le]; constructor <;> nlinarith)]; rfl
+  rw [if_neg c1] at h
+  by_cases c2 : ((qc.r + margin * qc.r).sq.le (qDist2 qp qc.c)) = true
+  · rw [if_pos c2] at h; cases h
+    rw [Q.le_iff (Q.wf_sq (Q.wf_add hcr (Q.wf_mul hmw hcr))) wD, Q.val_sq (Q.wf_add hcr (Q.wf_mul hmw hcr)),
+      Q.val_add hcr (Q.wf_mul hmw hcr), Q.val_mul hmw hcr, hmv, ← hd2] at c2
+    have h1 := (sq_le_sq_iff (by nlinarith) hd0).mp c2
+    rw [spec.2.1.mpr (by rw [hrv]; nlinarith)]; rfl
+  rw [if_neg c2] at h
+  by_cases c3 : ((qDist2 qp qc.c).le (qc.r - margin * qc.r).sq) = true
+  · rw [if_pos c3] at h; cases h
+    rw [Q.le_iff wD (Q.wf_sq (Q.wf_sub hcr (Q.wf_mul hmw hcr))), Q.val_sq (Q.wf_sub hcr (Q.wf_mul hmw hcr)),
+      Q.val_sub hcr (Q.wf_mul hmw hcr), Q.val_mul hmw hcr, hmv, ← hd2] at c3
+    have h1 := (sq_le_sq_iff hd0 (by nlinarith)).mp c3
+    rw [spec.1.mpr (by rw [hrv]; nlinarith)]; rfl
+  · rw [if_neg c3] at h; cases h
+
+/-- the same for `Line::contains` -/
+theorem specContains_sound (eps : ℝ) (heps : 0 < eps) (hm : eps < 1 / 10 ^ 8) (ql : QLine) (qp : QPoint)
+    (hl : ql.WF) (hp : qp.WF) (k : String) (h : specContains ql qp = some k) :
+    showBool (lineContains (realGeo eps) (ql.val eps) qp.val) = k := by
+  have wfE := QLine.wf_eval hl hp
+  have wfN := QLine.wf_n2 hl
+  have vE := QLine.val_eval hl hp
+  have vN := QLine.val_n2 hl
+  have wfS := Q.wf_sq wfE
+  have vS := Q.val_sq wfE
+  have hmv := margin_val
+  have hmw := margin_wf
+  simp only [specContains] at h
+  by_cases hz : ql.n2.isZero = true
+  · rw [if_pos hz] at h; cases h
+  rw [if_neg hz] at h
+  have hn0 : ql.n2.val ≠ 0 := fun e => hz ((Q.isZero_iff wfN).mpr e)
+  have hnpos : 0 < ql.A.val ^ 2 + ql.B.val ^ 2 := by
+    rw [← vN]; exact lt_of_le_of_ne (by rw [vN]; positivity) (Ne.symm hn0)
+  have hsd : |sdist (ql.val eps) qp.val| = |(ql.eval qp).val| / Real.sqrt (ql.A.val ^ 2 + ql.B.val ^ 2) := by
+    unfold QLine.val
+    rw [sdist_lineNew, abs_div, abs_of_pos (Real.sqrt_pos.mpr hnpos), vE]
+    rfl
+  by_cases c1 : (ql.eval qp).sq.isZero = true
+  · rw [if_pos c1] at h; cases h
+    rw [Q.isZero_iff wfS, vS] at c1
+    have h0 : (ql.eval qp).val = 0 := by nlinarith [sq_nonneg (ql.eval qp).val]
+    rw [(lineContains_real eps _ _).mpr (by rw [hsd, h0, abs_zero, zero_div]; exact heps)]; rfl
+  rw [if_neg c1] at h
+  by_cases c2 : ((margin.sq * ql.n2).le (ql.eval qp).sq) = true
+  · rw [if_pos c2] at h; cases h
+    rw [Q.le_iff (Q.wf_mul (Q.wf_sq hmw) wfN) wfS, Q.val_mul (Q.wf_sq hmw) wfN, Q.val_sq hmw, vS, vN, hmv] at c2
+    have := (le_abs_div_sqrt hnpos (by norm_num : (0:ℝ) ≤ 1 / 10 ^ 8)).mpr c2
+    have hf : lineContains (realGeo eps) (ql.val eps) qp.val = false := by
+      rw [Bool.eq_false_iff]
+      intro ht
+      have := (lineContains_real eps _ _).mp ht
+      rw [hsd] at this; linarith
+    rw [hf]; rfl
+  · rw [if_neg c2] at h; cases h
+/-- the same for `intersect_ll`: exactly parallel ⇒ `None`, `|sin| ≥ 1e-8` ⇒ `Some` -/
+theorem specKindLL_sound (eps : ℝ) (heps : 0 < eps) (hm : eps < 1 / 10 ^ 8) (qu qv : QLine)
+    (hu : qu.WF) (hv : qv.WF) (k : String) (h : specKindLL qu qv = some k) :
+    llKind (intersectLL (realGeo eps) (qu.val eps) (qv.val eps)) = k := by
+  have wN1 := QLine.wf_n2 hu
+  have wN2 := QLine.wf_n2 hv
+  have vN1 := QLine.val_n2 hu
+  have vN2 := QLine.val_n2 hv
+  have hmv := margin_val
+  have hmw := margin_wf
+  have wcr : (qu.A * qv.B - qu.B * qv.A).WF := Q.wf_sub (Q.wf_mul hu.1 hv.2.1) (Q.wf_mul hu.2.1 hv.1)
+  have vcr : (qu.A * qv.B - qu.B * qv.A).val = qu.A.val * qv.B.val - qu.B.val * qv.A.val := by
+    rw [Q.val_sub (Q.wf_mul hu.1 hv.2.1) (Q.wf_mul hu.2.1 hv.1), Q.val_mul hu.1 hv.2.1, Q.val_mul hu.2.1 hv.1]
+  simp only [specKindLL] at h
+  by_cases hz : (qu.n2 * qv.n2).isZero = true
+  · rw [if_pos hz] at h; cases h
+  rw [if_neg hz] at h
+  have hnn : (qu.n2 * qv.n2).val ≠ 0 := fun e => hz ((Q.isZero_iff (Q.wf_mul wN1 wN2)).mpr e)
+  rw [Q.val_mul wN1 wN2, vN1, vN2] at hnn
+  have h1pos : 0 < qu.A.val ^ 2 + qu.B.val ^ 2 :=
+    lt_of_le_of_ne (by positivity) (fun e => hnn (by rw [← e, zero_mul]))
+  have h2pos : 0 < qv.A.val ^ 2 + qv.B.val ^ 2 :=
+    lt_of_le_of_ne (by positivity) (fun e => hnn (by rw [← e, mul_zero]))
+  have hs1 := Real.sqrt_pos.mpr h1pos
+  have hs2 := Real.sqrt_pos.mpr h2pos
+  -- `cp` of the two stored unit normals
+  have hcross : crossN (qu.val eps) (qv.val eps) =
+      (qu.A.val * qv.B.val - qu.B.val * qv.A.val) /
+        Real.sqrt ((qu.A.val ^ 2 + qu.B.val ^ 2) * (qv.A.val ^ 2 + qv.B.val ^ 2)) := by
+    rw [Real.sqrt_mul h1pos.le]
+    simp only [crossN, QLine.val, lineNew, len, slen, realGeo]
+    rw [show qu.A.val * qu.A.val + qu.B.val * qu.B.val = qu.A.val ^ 2 + qu.B.val ^ 2 by ring,
+      show qv.A.val * qv.A.val + qv.B.val * qv.B.val = qv.A.val ^ 2 + qv.B.val ^ 2 by ring]
+    field_simp
+  have hprod : 0 < (qu.A.val ^ 2 + qu.B.val ^ 2) * (qv.A.val ^ 2 + qv.B.val ^ 2) := mul_pos h1pos h2pos
+  rw [intersectLL_real]
+  by_cases c1 : (qu.A * qv.B - qu.B * qv.A).isZero = true
+  · rw [if_pos c1] at h; cases h
+    rw [Q.isZero_iff wcr, vcr] at c1
+    rw [if_pos (by rw [hcross, c1, zero_div, abs_zero]; exact heps)]; rfl
+  rw [if_neg c1] at h
+  by_cases c2 : ((margin.sq * (qu.n2 * qv.n2)).le (qu.A * qv.B - qu.B * qv.A).sq) = true
+  · rw [if_pos c2] at h; cases h
+    rw [Q.le_iff (Q.wf_mul (Q.wf_sq hmw) (Q.wf_mul wN1 wN2)) (Q.wf_sq wcr), Q.val_mul (Q.wf_sq hmw) (Q.wf_mul wN1 wN2),
+      Q.val_sq hmw, Q.val_mul wN1 wN2, vN1, vN2, Q.val_sq wcr, vcr, hmv] at c2
+    have := (le_abs_div_sqrt hprod (by norm_num : (0:ℝ) ≤ 1 / 10 ^ 8)).mpr c2
+    rw [if_neg (by rw [hcross, abs_div, abs_of_pos (Real.sqrt_pos.mpr hprod)]; linarith)]; rfl
+  · rw [if_neg c2] at h; cases h
+
+/-- the exact point predicates the driver evaluates on returned coordinates mean what they say -/
+theorem nearCircle_iff (qc : QCircle) (qp : QPoint) (hc : qc.WF) (hp : qp.WF) :
+    nearCircle qc qp = true ↔ 1 / 10 ^ 7 ≤ qc.val.r ∧ |Geometry.edist qp.val qc.val.c - qc.val.r| ≤ 1 / 10 ^ 7 := by
+  obtain ⟨hcc, hcr⟩ := hc
+  obtain ⟨vD, wD⟩ := qDist2_val hp hcc
+  have htv := tol_val
+  have htw := tol_wf
+  have hd2 : Geometry.edist qp.val qc.val.c ^ 2 = (qDist2 qp qc.c).val := by rw [edist_sq, vD]; rfl
+  have hd0 := edist_nonneg qp.val qc.val.c
+  have hrv : qc.val.r = qc.r.val := rfl
+  simp only [nearCircle]
+  rw [Bool.and_eq_true, Bool.and_eq_true, Q.le_iff (Q.wf_sq (Q.wf_sub hcr htw)) wD, Q.le_iff wD (Q.wf_sq (Q.wf_add hcr htw)),
+    Q.le_iff htw hcr, Q.val_sq (Q.wf_sub hcr htw), Q.val_sq (Q.wf_add hcr htw), Q.val_sub hcr htw, Q.val_add hcr htw, htv,
+    ← hd2, hrv]
+  constructor
+  · rintro ⟨⟨h1, h2⟩, h3⟩
+    have h1' := (sq_le_sq_iff (by linarith) hd0).mp h1
+    have h2' := (sq_le_sq_iff hd0 (by linarith)).mp h2
+    exact ⟨h3, abs_le.mpr ⟨by linarith, by linarith⟩⟩
+  · rintro ⟨h3, h⟩
+    have := abs_le.mp h
+    exact ⟨⟨(sq_le_sq_iff (by linarith) hd0).mpr (by linarith), (sq_le_sq_iff hd0 (by linarith)).mpr (by linarith)⟩, h3⟩
+
+theorem nearLine_iff (ql : QLine) (qp : QPoint) (hl : ql.WF) (hp : qp.WF) (hn : 0 < ql.A.val ^ 2 + ql.B.val ^ 2) :
+    nearLine ql qp = true ↔
+      |ql.A.val * qp.val.x + ql.B.val * qp.val.y + ql.C.val| / Real.sqrt (ql.A.val ^ 2 + ql.B.val ^ 2) ≤ 1 / 10 ^ 7 := by
+  have wfE := QLine.wf_eval hl hp
+  have wfN := QLine.wf_n2 hl
+  have vE := QLine.val_eval hl hp
+  have vN := QLine.val_n2 hl
+  have htv := tol_val
+  have htw := tol_wf
+  simp only [nearLine]
+  rw [Q.le_iff (Q.wf_sq wfE) (Q.wf_mul (Q.wf_sq htw) wfN), Q.val_sq wfE, Q.val_mul (Q.wf_sq htw) wfN, Q.val_sq htw, vE, vN, htv]
+  exact (abs_div_sqrt_le hn (by norm_num)).symm
+
 /-! ### non-vacuity: every theorem applies to a concrete, non-trivial configuration -/
 
 example : UnitLine (lineNew (realGeo 1e-9) 3 4 5) := (line_new_unit _ 3 4 5 (Or.inl (by norm_num))).1
@@ -374,5 +703,34 @@ example : lineContains (realGeo 1e-9) ⟨3 / 5, 4 / 5, -5⟩ ⟨3, 4⟩ = true :
   (contains_spec _ _ _).mpr (by norm_num)
 
 example := line_between_spec 1e-9 ⟨0, 0⟩ ⟨3, 4⟩ (by simp only [ne_eq, Point.mk.injEq]; norm_num)
+
+-- the executable spec on concrete fractions, and the soundness theorems applied to it
+example : specKindCL ⟨⟨⟨0, 1⟩, ⟨0, 1⟩⟩, ⟨5, 1⟩⟩ ⟨⟨3, 1⟩, ⟨4, 1⟩, ⟨-25, 1⟩⟩ = some "Touch" := by decide
+example := specKindCL_sound (1 / 10 ^ 9) (by norm_num) (by norm_num) ⟨⟨⟨0, 1⟩, ⟨0, 1⟩⟩, ⟨5, 1⟩⟩ ⟨⟨3, 1⟩, ⟨4, 1⟩, ⟨-25, 1⟩⟩
+  ⟨⟨Nat.one_pos, Nat.one_pos⟩, Nat.one_pos⟩ ⟨Nat.one_pos, Nat.one_pos, Nat.one_pos⟩ (by norm_num [Q.val]) "Touch" (by decide)
+
+example : specKindCC ⟨⟨⟨0, 1⟩, ⟨0, 1⟩⟩, ⟨3, 1⟩⟩ ⟨⟨⟨3, 1⟩, ⟨4, 1⟩⟩, ⟨4, 1⟩⟩ = some "Intersect" := by decide
+example : specKindCC ⟨⟨⟨0, 1⟩, ⟨0, 1⟩⟩, ⟨3, 1⟩⟩ ⟨⟨⟨0, 1⟩, ⟨0, 1⟩⟩, ⟨5, 1⟩⟩ = some "None" := by decide
+example := specKindCC_sound (1 / 10 ^ 9) (by norm_num) (by norm_num) ⟨⟨⟨0, 1⟩, ⟨0, 1⟩⟩, ⟨3, 1⟩⟩ ⟨⟨⟨0, 1⟩, ⟨0, 1⟩⟩, ⟨5, 1⟩⟩
+  ⟨⟨Nat.one_pos, Nat.one_pos⟩, Nat.one_pos⟩ ⟨⟨Nat.one_pos, Nat.one_pos⟩, Nat.one_pos⟩
+  (by norm_num [Q.val]) (by norm_num [Q.val])
+  (Or.inl ((Q.isZero_iff (qDist2_val (p := ⟨⟨0, 1⟩, ⟨0, 1⟩⟩) (q := ⟨⟨0, 1⟩, ⟨0, 1⟩⟩) ⟨Nat.one_pos, Nat.one_pos⟩ ⟨Nat.one_pos, Nat.one_pos⟩).2).mp (by decide)))
+  "None" (by decide)
+
+example := specPosition_sound (1 / 10 ^ 9) (by norm_num) (by norm_num) ⟨⟨⟨3, 1⟩, ⟨4, 1⟩⟩, ⟨5, 1⟩⟩ ⟨⟨0, 1⟩, ⟨0, 1⟩⟩
+  ⟨⟨Nat.one_pos, Nat.one_pos⟩, Nat.one_pos⟩ ⟨Nat.one_pos, Nat.one_pos⟩ (by norm_num [Q.val]) "Border" (by decide)
+
+example := specContains_sound (1 / 10 ^ 9) (by norm_num) (by norm_num) ⟨⟨3, 1⟩, ⟨4, 1⟩, ⟨-25, 1⟩⟩ ⟨⟨3, 1⟩, ⟨4, 1⟩⟩
+  ⟨Nat.one_pos, Nat.one_pos, Nat.one_pos⟩ ⟨Nat.one_pos, Nat.one_pos⟩ "true" (by decide)
+
+example := specKindLL_sound (1 / 10 ^ 9) (by norm_num) (by norm_num) ⟨⟨1, 1⟩, ⟨0, 1⟩, ⟨-1, 1⟩⟩ ⟨⟨0, 1⟩, ⟨1, 1⟩, ⟨-2, 1⟩⟩
+  ⟨Nat.one_pos, Nat.one_pos, Nat.one_pos⟩ ⟨Nat.one_pos, Nat.one_pos, Nat.one_pos⟩ "Some" (by decide)
+
+-- the point (3,4) passes the exact point predicates for the circle ((0,0),5) and the line 3x + 4y = 25
+example : nearCircle ⟨⟨⟨0, 1⟩, ⟨0, 1⟩⟩, ⟨5, 1⟩⟩ ⟨⟨3, 1⟩, ⟨4, 1⟩⟩ = true := by decide
+example := (nearCircle_iff ⟨⟨⟨0, 1⟩, ⟨0, 1⟩⟩, ⟨5, 1⟩⟩ ⟨⟨3, 1⟩, ⟨4, 1⟩⟩ ⟨⟨Nat.one_pos, Nat.one_pos⟩, Nat.one_pos⟩
+  ⟨Nat.one_pos, Nat.one_pos⟩).mp (by decide)
+example := (nearLine_iff ⟨⟨3, 1⟩, ⟨4, 1⟩, ⟨-25, 1⟩⟩ ⟨⟨3, 1⟩, ⟨4, 1⟩⟩ ⟨Nat.one_pos, Nat.one_pos, Nat.one_pos⟩
+  ⟨Nat.one_pos, Nat.one_pos⟩ (by norm_num [Q.val])).mp (by decide)
 
 end Rlib.C10
